@@ -501,10 +501,35 @@ class Model:
                     and isinstance(n.value, (ast.List, ast.Tuple)):
                 names = [e.value for e in n.value.elts if isinstance(e, ast.Constant) and isinstance(e.value, str)]
         roots = []
+        self.wrapped_exports: List[str] = []       # exported names bound to the result of a call (`compact = _accepts_ids(core.compact)`)
         for nm in names:
             bd = self.scopes["a5"].get(nm)
             if bd is not None and bd.kind == "func":
                 roots.append(bd.target)
+                continue
+            # name = factory(<core function>, ...): what is exported is whatever the factory returns; the functions named in the
+            # expression are still analysed as roots (the wrapper itself is reported as not analysed by the caller)
+            for n in tree.body:
+                if isinstance(n, ast.Assign) and any(isinstance(t, ast.Name) and t.id == nm for t in n.targets):
+                    found = False
+                    for x in ast.walk(n.value):
+                        if isinstance(x, (ast.Name, ast.Attribute)):
+                            try:
+                                b2 = self.resolve_expr_binding(x, "a5")
+                            except Exception:
+                                b2 = None
+                            if b2 is not None and b2.kind == "func" and b2.target not in roots:
+                                roots.append(b2.target)
+                                found = True
+                    if found or isinstance(n.value, ast.Call):
+                        self.wrapped_exports.append(nm)
+            if not any(r.rsplit(".", 1)[-1] == nm for r in roots):
+                # exported lazily (module-level __getattr__ with a name -> module table): the one core function of that name
+                cands = [q for q, fi in self.funcs.items() if q.rsplit(".", 1)[-1] == nm and not fi.cls and not fi.is_module_body
+                         and q.startswith("a5.core.") and q.count(".") == 3]
+                if len(cands) == 1:
+                    roots.append(cands[0])
+                    self.wrapped_exports.append(nm)
         return roots
 
     def reachable(self, roots: List[str]) -> Dict[str, Optional[Tuple[str, ast.Call]]]:
